@@ -180,7 +180,7 @@ impl Leg for Runs {
                 } else {
                     Just(None).boxed()
                 };
-                (gen::records_in_container(p), alt).prop_map(move |((recs, cont), alt)| {
+                (gen::records_mixed_in_container(p), alt).prop_map(move |((recs, cont), alt)| {
                     // the alternative counting input shares a prefix of the records so multiplicities differ
                     let alt = alt.map(|(mut a, share)| {
                         let take = crate::util::idx16(share, recs.len() + 1);
